@@ -61,7 +61,7 @@ fn chain_y(p: &Problem, o: &Outcome) -> Option<String> {
 
 fn emit(sink: &mut CaseSink, p: &Problem, o: &Outcome, stats: &mut BTreeMap<String, usize>) { emit_x(sink, p, o, stats, None) }
 /// `upd` = (base problem, update) when `o` is the outcome of a re-solve after in-place updates; `p` is then the FINAL data
-fn emit_x(sink: &mut CaseSink, p: &Problem, o: &Outcome, stats: &mut BTreeMap<String, usize>, upd: Option<(&Problem, &DataUpdate)>) {
+fn emit_x(sink: &mut CaseSink, p: &Problem, o: &Outcome, stats: &mut BTreeMap<String, usize>, upd: Option<(&Problem, &[DataUpdate])>) {
     let kinds: Vec<&str> = { let mut k: Vec<&str> = p.cones.iter().map(|c| c.kind()).collect(); k.sort(); k.dedup(); k };
     *stats.entry(format!("run:{}", o.run)).or_insert(0) += 1;
     if o.run != "ok" {
@@ -89,12 +89,14 @@ fn emit_x(sink: &mut CaseSink, p: &Problem, o: &Outcome, stats: &mut BTreeMap<St
     if o.status == "Solved" { tags.push("C01"); }
     if o.status == "PrimalInfeasible" || o.status == "DualInfeasible" { tags.push("C02"); }
     let size = p.n().max(p.m());
-    if let Some((_, u)) = upd {
+    if let Some((_, us)) = upd {
+        let u = us.last().unwrap();
+        if !o.history.is_empty() { *stats.entry(format!("update_transition:{}>{}", o.history.join(">"), o.status)).or_insert(0) += 1; }
         *stats.entry(format!("update:{}", u.kinds())).or_insert(0) += 1;
         *stats.entry(format!("update_status:{}", o.status)).or_insert(0) += 1;
         if (o.c - 1.0).abs() > 1e-3 { *stats.entry("update:c_not_1".into()).or_insert(0) += 1; }
     }
-    let updj = match upd { Some((b, u)) => json!({"base": b.json(), "update": u.json()}), None => Value::Null };
+    let updj = match upd { Some((b, us)) => json!({"base": b.json(), "updates": us.iter().map(|u| u.json()).collect::<Vec<_>>(), "history": o.history}), None => Value::Null };
     let cov = match chain_y(p, o) { Some(y) if p.all_finite() && o.vectors_finite() => format!("(cov_chain {} {} St_{})", p.settings.coq_f(), y, o.status), _ => String::new() };
     let input = json!({"problem": p.json(), "cov": cov, "resolve_after_update": updj, "outcome": o.json(), "status": o.status, "class": p.class, "label": p.label,
                        "n": p.n(), "m": p.m(), "size": size, "kinds": kinds,
@@ -199,10 +201,10 @@ fn main() {
             let ru = if it.get("input").is_some() { &it["input"]["resolve_after_update"] } else { &it["resolve_after_update"] };
             if ru.is_object() {
                 let base = Problem::from_json(&ru["base"]);
-                let u = DataUpdate::from_json(&ru["update"]);
-                let fin = apply_update(&base, &u);
-                let o = run_update(&base, &u, 60.0);
-                emit_x(&mut sink, &fin, &o, &mut stats, Some((&base, &u)));
+                let us: Vec<DataUpdate> = match ru["updates"].as_array() { Some(a) => a.iter().map(DataUpdate::from_json).collect(), None => vec![DataUpdate::from_json(&ru["update"])] };
+                let fin = if us.len() == 1 { apply_update(&base, &us[0]) } else { apply_updates(&base, &us) };
+                let o = run_updates(&base, &us, 60.0);
+                emit_x(&mut sink, &fin, &o, &mut stats, Some((&base, &us)));
                 continue;
             }
             let p = Problem::from_json(pj);
@@ -239,7 +241,23 @@ fn main() {
             let (base, u) = gen_update_case(&mut rng3, idx, max_size);
             let fin = apply_update(&base, &u);
             let o = run_update(&base, &u, 30.0);
-            emit_x(&mut sink, &fin, &o, &mut stats, Some((&base, &u)));
+            emit_x(&mut sink, &fin, &o, &mut stats, Some((&base, std::slice::from_ref(&u))));
+        }
+        // feasibility transitions on one solver object (feasible -> infeasible, infeasible -> feasible -> infeasible, ...)
+        let mut rng5 = Rng::new(seed ^ 0x7a75);
+        for idx in 0..(if thorough { 280 } else { 56 }) {
+            let (base, us) = gen_transition_case(&mut rng5, idx, max_size);
+            let fin = apply_updates(&base, &us);
+            let o = run_updates(&base, &us, 30.0);
+            emit_x(&mut sink, &fin, &o, &mut stats, Some((&base, &us)));
+        }
+        // right-hand sides of both signs around the infinity bound (default and lowered), presolve on;
+        // the bound is process-global: the runner sets and restores it around each (serial) build
+        let mut rng4 = Rng::new(seed ^ 0x1f1f);
+        for idx in 0..(if thorough { 240 } else { 48 }) {
+            let p = gen_infbound_case(&mut rng4, idx);
+            let o = run(&p, 30.0);
+            emit(&mut sink, &p, &o, &mut stats);
         }
         let mut rng2 = Rng::new(seed ^ 0x5eed);
         synth(&mut sink, &mut rng2, if thorough { 12000 } else { 2400 }, &mut stats);
